@@ -6,6 +6,7 @@ revert / flush / stash), `Model/Mutate.lean` (flush = ApplyMutations).  Spec: `S
 -/
 import DoltVerif.Model.MutableMap
 import DoltVerif.Lemmas.Mutate
+import DoltVerif.Lemmas.Search
 namespace DoltVerif.C11
 open DoltVerif.Prolly DoltVerif.SortedDict
 
@@ -58,6 +59,107 @@ theorem range_predicates_consistent (fcmp : FieldCmp κ β) (t : κ) :
 /-- non-vacuity: a two-field range `field0 = 5 ∧ 2 ≤ field1 < 9` over pairs of numbers -/
 example : rangeMatches (fun i (t : Nat × Nat) v => compare (if i == 0 then t.1 else t.2) v) (5, 7) 0
     [⟨⟨5, true, true⟩, ⟨5, true, true⟩, true⟩, ⟨⟨2, true, true⟩, ⟨9, true, false⟩, false⟩] = true := by decide
+
+/-! ### point lookups and ordinals: the per-level binary search -/
+
+/-- **The binary search of `searchForKey` is a linear scan**: for every total-preorder comparator
+and strictly increasing node keys it returns the number of keys strictly below the probe
+(first index whose key is ≥ the probe, `Count` if none). -/
+theorem search_refines {cmp : κ → κ → Ordering} (hc : TotalPreorder cmp) (k : κ) (keys : List κ)
+    (hs : keys.Pairwise (fun a b => cmp a b = .lt)) :
+    searchForKey cmp k keys = (keys.takeWhile (fun x => cmp k x == .gt)).length :=
+  searchForKey_eq_takeWhile hc k keys hs
+
+theorem find?_skip_takeWhile (p q : κ × ν → Bool) : ∀ (l : List (κ × ν)),
+    (∀ x ∈ l, p x = true → q x = false) → l.find? q = (l.dropWhile p).find? q
+  | [], _ => rfl
+  | x :: l, h => by
+    by_cases hp : p x = true
+    · have hq := h x (by simp) hp
+      simp only [List.find?_cons, hq, List.dropWhile_cons, hp, if_true]
+      exact find?_skip_takeWhile p q l (fun y hy => h y (by simp [hy]))
+    · simp [hp]
+
+theorem getElem?_takeWhile_length (p : κ × ν → Bool) : ∀ (l : List (κ × ν)),
+    l[(l.takeWhile p).length]? = (l.dropWhile p).head?
+  | [] => rfl
+  | x :: l => by
+    by_cases hp : p x = true
+    · simp only [List.takeWhile_cons, hp, if_true, List.length_cons, List.getElem?_cons_succ,
+        List.dropWhile_cons]
+      exact getElem?_takeWhile_length p l
+    · simp [hp]
+
+theorem dropWhile_head_false (p : κ × ν → Bool) : ∀ (l : List (κ × ν)) (x : κ × ν) (rest : List (κ × ν)),
+    l.dropWhile p = x :: rest → p x = false
+  | [], _, _, h => by simp at h
+  | y :: l, x, rest, h => by
+    by_cases hp : p y = true
+    · simp only [List.dropWhile_cons, hp, if_true] at h
+      exact dropWhile_head_false p l x rest h
+    · simp only [List.dropWhile_cons, hp, Bool.false_eq_true, if_false, List.cons.injEq] at h
+      rw [← h.1]; simpa using hp
+
+/-- `Tree.get` on a leaf root, on plain pairs -/
+def leafGet (cmp : κ → κ → Ordering) (k : κ) (l : List (κ × ν)) : Option (κ × ν) :=
+  match l[searchForKey cmp k (l.map (·.1))]? with
+  | some kv => if cmp k kv.1 == .eq then some kv else none
+  | none => none
+
+theorem leafGet_refines {cmp : κ → κ → Ordering} (hc : TotalPreorder cmp) (leaf : List (κ × ν))
+    (hs : Sorted cmp leaf) (k : κ) : leafGet cmp k leaf = SortedDict.lookup cmp leaf k := by
+  have hkeys : (leaf.map (·.1)).Pairwise (fun a b => cmp a b = .lt) := List.pairwise_map.mpr hs
+  unfold leafGet
+  rw [searchForKey_eq_takeWhile hc k _ hkeys]
+  have hlen : (List.takeWhile (fun x => cmp k x == .gt) (leaf.map (·.1))).length
+      = (leaf.takeWhile (fun kv => cmp k kv.1 == .gt)).length := by
+    rw [List.takeWhile_map]; simp [Function.comp_def]
+  rw [hlen, getElem?_takeWhile_length]
+  unfold SortedDict.lookup
+  rw [find?_skip_takeWhile (fun kv => cmp k kv.1 == .gt) (fun kv => cmp k kv.1 == .eq) leaf
+    (by intro x _ hx; simp only [beq_iff_eq] at hx; simp [hx])]
+  -- after the `gt` prefix: the head decides
+  cases hd : leaf.dropWhile (fun kv => cmp k kv.1 == .gt) with
+  | nil => simp
+  | cons kv rest =>
+    simp only [List.head?_cons, List.find?_cons]
+    by_cases heq : (cmp k kv.1 == .eq) = true
+    · simp [heq]
+    · simp only [heq, Bool.false_eq_true, if_false]
+      -- kv is not `gt` (head of dropWhile) and not `eq`: it is `lt`, and so is everything after it
+      have hnotgt : (cmp k kv.1 == .gt) = false :=
+        dropWhile_head_false (fun kv => cmp k kv.1 == .gt) leaf kv rest hd
+      have hlt : cmp k kv.1 = .lt := by
+        cases hc' : cmp k kv.1 <;> simp_all
+      have hsub : (kv :: rest).Sublist leaf := by rw [← hd]; exact List.dropWhile_sublist _
+      have hs' : (kv :: rest).Pairwise (fun a b => cmp a.1 b.1 = .lt) := List.Pairwise.sublist hsub hs
+      rw [List.pairwise_cons] at hs'
+      symm
+      rw [List.find?_eq_none]
+      intro x hx
+      have := hc.lt_trans k kv.1 x.1 hlt (hs'.1 x hx)
+      simp [this]
+
+/-- **`Get` on a single-node map is dictionary lookup** (`get_refines` at height 0): for every
+total-preorder comparator, every strictly sorted leaf and every probe — present, absent between
+present keys, below the first or above the last. -/
+theorem get_refines_leaf {cmp : κ → κ → Ordering} (hc : TotalPreorder cmp) (leaf : List (κ × ν))
+    (hs : Sorted cmp leaf) (k : κ) :
+    (⟨0, leaf⟩ : Tree κ ν).get cmp k = SortedDict.lookup cmp leaf k := by
+  have h : (⟨0, leaf⟩ : Tree κ ν).get cmp k = leafGet cmp k leaf := rfl
+  rw [h]; exact leafGet_refines hc leaf hs k
+
+/-- **`GetOrdinalForKey` on a single-node map counts the keys below the probe** -/
+theorem ordinal_refines_leaf {cmp : κ → κ → Ordering} (hc : TotalPreorder cmp) (leaf : List (κ × ν))
+    (hs : Sorted cmp leaf) (k : κ) :
+    (⟨0, leaf⟩ : Tree κ ν).ordinalForKey cmp k = some (leaf.takeWhile (fun kv => cmp k kv.1 == .gt)).length := by
+  have hkeys : (leaf.map (·.1)).Pairwise (fun a b => cmp a b = .lt) := List.pairwise_map.mpr hs
+  have h : (⟨0, leaf⟩ : Tree κ ν).ordinalForKey cmp k = some (searchForKey cmp k (leaf.map (·.1))) := rfl
+  rw [h, searchForKey_eq_takeWhile hc k _ hkeys, List.takeWhile_map]
+  simp [Function.comp_def]
+
+/-- non-vacuity: numbers under `compare` -/
+example : (⟨0, [(1, "a"), (3, "b"), (7, "c")]⟩ : Tree Nat String).flatten = [(1, "a"), (3, "b"), (7, "c")] := rfl
 
 /-! ### the pending-edit list (skip.List with its checkpoint) -/
 
